@@ -134,6 +134,27 @@ class SymTD:
         r = _cmpb("ne", self._e, 0)
         return r if isinstance(r, bool) else bool(r)
 
+    # timedelta's normalised fields (days, 0 <= seconds < 86400, 0 <= microseconds < 10**6) as symbolic ints
+    @property
+    def days(self):
+        from .num import SymInt
+        from .dec import fdiv
+        return SymInt(fdiv(self._e, 86400 * 10 ** 6).z())
+
+    @property
+    def seconds(self):
+        from .num import SymInt
+        from .dec import fdiv
+        day_us = 86400 * 10 ** 6
+        rem = L.sub(self._e, L.scale(fdiv(self._e, day_us), day_us))
+        return SymInt(fdiv(rem, 10 ** 6).z())
+
+    @property
+    def microseconds(self):
+        from .num import SymInt
+        from .dec import fdiv
+        return SymInt(L.sub(self._e, L.scale(fdiv(self._e, 10 ** 6), 10 ** 6)).z())
+
     def _cmp(op):
         def f(self, o):
             if not isinstance(o, (datetime.timedelta, SymTD)):
